@@ -77,9 +77,10 @@ class Component:
             self._init = extract_all(self.repo, fi) if fi is not None else []
         return self._init
 
-    def init_attr(self, name: str) -> Optional[Term]:
-        """Constructor term stored into self.<name> by __init__ (first configuration that stores it)."""
-        for ex in self.init_configs:
+    def init_attr(self, name: str, last: bool = False) -> Optional[Term]:
+        """Constructor term stored into self.<name> by __init__ (first configuration that stores it; with `last`,
+        the last one - the configuration in which no optional-argument default was substituted)."""
+        for ex in (reversed(self.init_configs) if last else self.init_configs):
             # constructor parameters stored as attributes: `self.depth = depth` lets terms be read in terms of self.depth
             pmap = {}
             for st in ex.of(Store):
